@@ -166,3 +166,15 @@ def bounded_checks(reg, tier, seed):
              'bound': '%d hosts x %d ports x %d userinfo x %d paths, absolute- / authority- / origin-form, 3 damaged variants' % (
                  len(hosts), len(ports), len(users), len(paths)),
              'cases': n, 'violations': bad[:3]}]
+
+
+CROSSCHECK = ['HttpParser._set_line_attributes', 'Url._parse']
+
+
+def crosscheck_gens(reg):
+    def url_parse(g, rnd):
+        host = rnd.choice([b'h.example', b'localhost', b'10.0.0.1', b'', b'a-b.c', b'xn--p1ai'])
+        port = rnd.choice([b'80', b'443', b'0', b'65535', b'8080', b'', b'x', b'08', b' 9', b'-1', b'1e3'])
+        raw = host if rnd.random() < 0.4 else host + b':' + port
+        return None, {'raw': raw}, {'g_host': host, 'g_port': port, 'g_user': b'', 'g_pass': b''}
+    return {'Url._parse': url_parse}
